@@ -163,6 +163,14 @@ def run(ctx):
             items.append((cfgname, root, 0))
             if ctx.tier == 'thorough':
                 items.append((cfgname, root, 1))
+    # space-graded towards the start / end of the parameter interval (a corner of the polygons), 5 - 7 bisections: touching panels
+    # of very different length on one straight side in every slab - where a wrong term of the closed forms no longer cancels
+    for cfgname in ('UnitSquare', 'UnitSquare2', 'LShapeDriver', 'PiSquare'):
+        for kk in ((5, 6) if ctx.tier == 'quick' else (5, 6, 7)):
+            dh = meshmc.deep_histories(cfgname, kk)
+            for name in ('seamL', 'seamR'):
+                items.append((cfgname, dh[name], 0))
+            per['{}+space-graded{}'.format(cfgname, kk)] = {'meshes': 2}
     res = pmap(task, items, ctx.jobs, chunksize=1)
     n = blocks = skipped = unstable = lifecycle = 0
     lams = []
